@@ -30,7 +30,7 @@ func init() {
 		"(*sync.WaitGroup).Done":     extWGDone,
 		"(*sync.WaitGroup).Wait":     extWGWait,
 		"(*sync.Pool).Get":           extPoolGet,
-		"(*sync.Pool).Put":           extNop,
+		"(*sync.Pool).Put":           extPoolPut,
 		"(*sync.Map).Load":           extSyncMapLoad,
 		"(*sync.Map).Store":          extSyncMapStore,
 		"(*sync.Map).LoadOrStore":    extSyncMapLoadOrStore,
@@ -364,8 +364,39 @@ func extWGWait(fr *frame, args []value) value {
 
 // --- sync.Pool --------------------------------------------------------------------------
 
+// A Pool holds the values Put into it; Get either hands back the most recently
+// Put value or behaves as if the pool were empty (both are legal for sync.Pool,
+// which may drop values at any time), so each Get with a non-empty pool is a
+// choice point.  Put(x) happens-before the Get that returns x.
+type poolItem struct {
+	v    value
+	cell *value // pseudo lock cell carrying the happens-before edge
+}
+
+func extPoolPut(fr *frame, args []value) value {
+	p := args[0].(*value)
+	fr.yieldPoint(p)
+	ps := fr.i.ps
+	if ps.pools == nil {
+		ps.pools = map[*value][]poolItem{}
+	}
+	var cell value = int32(0)
+	it := poolItem{v: args[1], cell: &cell}
+	ps.sched.releaseHB(ps.sched.cur, it.cell)
+	ps.pools[p] = append(ps.pools[p], it)
+	return nil
+}
+
 func extPoolGet(fr *frame, args []value) value {
 	p := args[0].(*value)
+	fr.yieldPoint(p)
+	ps := fr.i.ps
+	if items := ps.pools[p]; len(items) > 0 && ps.choose(2) == 0 {
+		it := items[len(items)-1]
+		ps.pools[p] = items[:len(items)-1]
+		ps.sched.acquireHB(ps.sched.cur, it.cell)
+		return it.v
+	}
 	st := (*p).(structure)
 	// New is the last field
 	newFn := st[len(st)-1]
@@ -1013,7 +1044,7 @@ func extIndexByte(fr *frame, args []value) value {
 	bs := seqBytes(args[0])
 	c := args[1]
 	for i, b := range bs {
-		if fr.truth(fr.binop(tokenEQL, nil, b, c)) {
+		if fr.truth(fr.binop(tokenEQL, types.Typ[types.Uint8], b, c)) {
 			return i
 		}
 	}
@@ -1025,7 +1056,7 @@ func extCountByte(fr *frame, args []value) value {
 	c := args[1]
 	n := 0
 	for _, b := range bs {
-		if fr.truth(fr.binop(tokenEQL, nil, b, c)) {
+		if fr.truth(fr.binop(tokenEQL, types.Typ[types.Uint8], b, c)) {
 			n++
 		}
 	}
